@@ -615,12 +615,48 @@ def opIface (args : List String) : Option String :=
   | _ => none
 end IfaceOps
 
+/-! ### C06/C07/C08 path terms (one ray) -/
+section WeightOps
+open Arim.Iface Arim.Weights
+
+def rTrig : RTrig Float := { sin := Float.sin, cos := Float.cos, sqrt := Float.sqrt, exp := Float.exp, one := 1.0, zero := 0.0 }
+
+def spec? (s : String) (theta vIn vOut : Float) : Option (IfaceSpec CF) :=
+  match s.splitOn ":" with
+  | [tr, k, mi, mo] => do
+    let k ← kind? k; let mi ← mode? mi; let mo ← mode? mo
+    pure { transmission := tr == "t", kind := k, modeIn := mi, modeOut := mo,
+           theta := CF.ofReal theta, vIn := CF.ofReal vIn, vOut := CF.ofReal vOut }
+  | _ => none
+
+def showEC : Except IErr (Option CF) → String
+  | .error _ => "E" | .ok none => "N" | .ok (some z) => showCF z
+
+/-- `weights <legs> <vels> <thetas> <specs ;> <alphas> <rhoF> <rhoS> <cF> <cL> <cT>` -/
+def opWeights (args : List String) : Option String := do
+  match args with
+  | [legs, vels, ths, specs, alphas, rhoF, rhoS, cF, cL, cT] =>
+    let legs ← floatList? legs; let vels ← floatList? vels; let ths ← floatList? ths; let alphas ← floatList? alphas
+    let rhoF ← float? rhoF; let rhoS ← float? rhoS; let cF ← float? cF; let cL ← float? cL; let cT ← float? cT
+    let m : Media CF := { rhoF := CF.ofReal rhoF, rhoS := CF.ofReal rhoS, cF := CF.ofReal cF, cL := CF.ofReal cL, cT := CF.ofReal cT }
+    let sp := splitNE specs ";"
+    let specs ← (List.range sp.length).mapM (fun k => do
+      let s ← sp[k]?; let th ← ths[k]?; let vi ← vels[k]?; let vo ← vels[k + 1]?
+      spec? s th vi vo)
+    pure (join [showFloat (beamspread rTrig legs vels ths), showFloat (revBeamspread rTrig legs vels ths),
+      showEC (transRefl cfTrig m false specs), showEC (transRefl cfTrig m true specs),
+      showEC (revTransRefl cfTrig m false specs), showEC (revTransRefl cfTrig m true specs),
+      showFloat (attenuation rTrig alphas legs)] "|")
+  | _ => none
+end WeightOps
+
 def route (op : String) (args : List String) : String :=
   let r : Option String :=
     match op with
     | "fermat" => opFermat args
     | "minplus" => opMinPlus args
     | "chunks" => opChunks args
+    | "weights" => opWeights args
     | "iface" => opIface args
     | "raygeom" => opRayGeom args
     | "probe" => opProbe args
